@@ -269,6 +269,10 @@ def to_model(data_file: typing.IO, _config = None, progress_callback=lambda _: N
           .replace("\r\n", "\n")
         subtitle_text = _BRACE_TAG_RE.sub(r"<\1>", subtitle_text)
 
+        # SubRip has no declarations, marked sections or processing instructions: keep them as text
+
+        subtitle_text = re.sub(r"<(?=[!?])", "&lt;", subtitle_text)
+
         parser = _TextParser(current_p, line_index)
         parser.feed(subtitle_text)
         parser.close()
